@@ -788,7 +788,7 @@ class MemoryPathIO(AbstractPathIO):
             node = self.get_node(path)
             if node is None:
                 parent = self.get_node(path.parent)
-                if parent is None or parent.type != "dir":
+                if parent is None or parent.type != "dir" or mode == "r+b":
                     raise FileNotFoundError
                 new_node = Node("file", path.name, content=io.BytesIO())
                 parent.content.append(new_node)
